@@ -262,6 +262,7 @@ func doFlakeRun(state *core.BuildState, target *core.BuildTarget, run int, runRe
 		// If execution succeeded, we can break out of the flake loop
 		if testSuite.TestCases.AllSucceeded() {
 			results.Cached = testSuite.Cached
+			forgivePlaceholders(&results, target.Test.Results.Name, testSuite.Duration)
 			break
 		}
 	}
@@ -292,6 +293,31 @@ func addFlakeRun(results *core.TestSuite, cases core.TestCases) {
 		}
 		if !merged {
 			results.TestCases = append(results.TestCases, testCase)
+		}
+	}
+}
+
+// placeholderTypes are the types of the errors that parseTestOutput makes up for a run as a whole.
+var placeholderTypes = map[string]bool{"MissingResults": true, "TestFailed": true, "NoResults": true, "ReturnValue": true}
+
+// forgivePlaceholders is called when a run of a flaky test has succeeded. The placeholder cases we
+// record for earlier runs that produced no usable results (or an unexplained exit code) stand for the
+// run as a whole rather than any real test case, so no later run would ever add a passing execution
+// to them; this clean run is that execution.
+func forgivePlaceholders(results *core.TestSuite, name string, duration time.Duration) {
+	for i := range results.TestCases {
+		testCase := &results.TestCases[i]
+		if testCase.Name != name || testCase.ClassName != "" || testCase.Success() != nil {
+			continue
+		}
+		placeholder := len(testCase.Executions) > 0
+		for _, execution := range testCase.Executions {
+			if execution.Error == nil || !placeholderTypes[execution.Error.Type] {
+				placeholder = false
+			}
+		}
+		if placeholder {
+			testCase.Executions = append(testCase.Executions, core.TestExecution{Duration: &duration})
 		}
 	}
 }
